@@ -15,7 +15,7 @@ import svc
 
 TOL = 1e-4
 # strategies with foresight of the connector: several vehicles on a tight connector must all be served (feasible by construction)
-SHARED_STRATS = ("flex_window", "peak_load_window", "balanced_market")
+SHARED_STRATS = ("flex_window", "peak_load_window")
 
 
 def reach(js, res, p, limit_aware):
